@@ -153,6 +153,15 @@ def run_impl(case):
             inv = INV()(y=y.copy(), y_err=e.copy(), model_matrix=A.copy(), parameter_spatial_positions=pos.copy(),
                         prior_covariance_function=MX.make_kernel(case["kernel"]),
                         prior_mean_function=MX.make_mean(case["mean"]))
+            # history dimension: the SAME array object is first used with other hyper-parameter
+            # values (both posterior paths), then overwritten in place with the intended ones
+            stage = "warm-up with perturbed hyper-parameters"
+            buf = np.array(theta, dtype=float) + 0.25
+            inv.calculate_posterior(buf)
+            inv.calculate_posterior_mean(buf)
+            inv.marginal_likelihood(buf)
+            buf[:] = theta
+            theta = buf
             stage = "calculate_posterior"
             pmean, pcov = inv.calculate_posterior(theta)
             stage = "calculate_posterior_mean"
